@@ -10,6 +10,8 @@ CONSTANTS
   WithFaults = TRUE
   FailKinds = {"none", "device"}
   TmoKinds = {"short"}
+  Disabled = {}
+  UseBad = FALSE
   WithLifecycle = FALSE
   InitDevice <- FaultInit
 VIEW view
